@@ -333,3 +333,257 @@ def s_url_getter(vc):
         return
     p = "" if isinstance(path, bytes) and path == b"*" else (SStr(path.t) if vc.mode == "sym" else path.decode())
     vc.ensure_kf("absolute_form", u.result == scheme.decode() + "://" + authority_spec(vc, scheme.decode(), host, port) + p, KF1, contains(host, ":"))
+
+
+# =================================================================================================================
+# T2 (bounded): real Request objects against an independent RFC 3986 / RFC 9110 reference reader
+
+def _ck(base, inp):
+    """check name qualified by the input class (failures are kept per check name, so one class cannot mask another)"""
+    cls = inp.get("host_class", "plain") + ("+port0" if inp.get("port_class") == "zero" else "")
+    if cls == "plain":
+        return base
+    inp["check"] = base   # classes with a recorded finding: one check name per (group, class), the individual check is kept in the input
+    return f"{base.split('.')[0]}[{cls}]"
+
+
+def _alabel(host: str) -> str:
+    """comparison form of a host: IDNA A-labels, lower case (IP literals: lower case text)"""
+    try:
+        return host.encode("idna").decode("ascii").lower()
+    except UnicodeError:
+        return host.lower()
+
+
+def ref_split_authority(auth: str):
+    """RFC 3986 §3.2 (no userinfo): '[' IPv6 ']' [':' port] | reg-name-or-IPv4 [':' port]; returns (host, port|None) or raises ValueError"""
+    if not auth.isascii():
+        raise ValueError("authority is not ASCII")
+    if auth.startswith("["):
+        end = auth.find("]")
+        if end < 0:
+            raise ValueError("unterminated IP literal")
+        host, rest = auth[1:end], auth[end + 1:]
+        if ":" not in host:
+            raise ValueError("not an IPv6 literal")
+    else:
+        i = auth.find(":")
+        host, rest = (auth, "") if i < 0 else (auth[:i], auth[i:])
+    if not host or any(c in host for c in "/?#@[] \t\r\n"):
+        raise ValueError("bad host")
+    if rest == "":
+        return host, None
+    if rest[0] != ":" or not rest[1:].isdigit() or not rest[1:].isascii():
+        raise ValueError("bad port")
+    return host, int(rest[1:])
+
+
+def ref_parse_url(u: str):
+    """(scheme, host in comparison form, port, path-with-query-and-fragment) of a valid absolute http(s) URL without userinfo"""
+    if not u.isascii():
+        # IRIs: map the host to A-labels first (RFC 3987 §3.1), the rest must be ASCII
+        scheme, rest = u.split("://", 1)
+        cut = min([rest.find(c) for c in "/?#" if c in rest] or [len(rest)])
+        h, p = rest[:cut], ""
+        if not h.startswith("[") and ":" in h:
+            h, p = h.split(":", 1)
+            p = ":" + p
+        u = scheme + "://" + h.encode("idna").decode("ascii") + p + rest[cut:]
+    scheme, rest = u.split("://", 1)
+    scheme = scheme.lower()
+    cut = min([rest.find(c) for c in "/?#" if c in rest] or [len(rest)])
+    host, port = ref_split_authority(rest[:cut])
+    tail = rest[cut:]
+    if port is None:
+        port = {"http": 80, "https": 443}[scheme]
+    return scheme, _alabel(host), port, tail if tail.startswith("/") else "/" + tail
+
+
+def ref_authority_target(value: bytes, scheme: str):
+    """(host in comparison form, port) an authority / Host header value designates"""
+    host, port = ref_split_authority(value.decode("ascii", "strict") if isinstance(value, bytes) else value)
+    return _alabel(host), port if port is not None else {"http": 80, "https": 443}[scheme]
+
+
+HOSTS = [
+    ("plain", "example.com"), ("plain", "EXAMPLE.com"), ("plain", "a_b.example"), ("plain", "example.com."), ("plain", "localhost"),
+    ("plain", "127.0.0.1"), ("plain", "192.168.0.1"),
+    ("ipv6", "[::1]"), ("ipv6", "[2001:db8::1]"), ("ipv6", "[FE80::1]"),
+    ("idn", "xn--bcher-kva.de"), ("idn", "bücher.de"), ("idn", "xn--fsq.example"),
+]
+PATHS = ["", "/", "/a/b", "/a%20b", "/a;p=1", "/?q=1&r=2", "/a?b=c#frag", "/a//b/", "/%7Euser/", "/a?x=/y:z@!$&'()*+,;=", "?q", "/a?b=c%26d&e=%3D", "/a b"]
+
+
+def _req(http_version=b"HTTP/1.1", host_header=None, authority=b"", scheme=b"http", host="old.example", port=80):
+    from mitmproxy.http import Request, Headers
+    fields = [(b"Accept", b"*/*")] + ([(b"Host", host_header)] if host_header is not None else []) + [(b"X-Last", b"1")]
+    return Request(host, port, b"GET", scheme, authority, b"/", http_version, Headers(fields), b"", None, 0.0, 0.0)
+
+
+def _check_destination(b, r, inp, had_host, had_authority, other_fields):
+    """Host header / authority designate (r.host, r.port); nothing is created; other headers untouched"""
+    scheme = r.scheme
+    target = (_alabel(r.host), r.port)
+    hosts = [v for k, v in r.headers.fields if k.lower() == b"host"]
+    if [f for f in r.headers.fields if f[0].lower() != b"host"] != other_fields:
+        b.fail(_ck("edit.other_headers_untouched", inp), inp, f"{r.headers.fields!r}")
+    if not had_host:
+        if hosts:
+            b.fail(_ck("edit.nothing_created", inp), inp, f"Host header appeared: {hosts!r}")
+    else:
+        if len(hosts) != 1:
+            b.fail(_ck("edit.host_header_points_to_destination", inp), inp, f"{len(hosts)} Host headers")
+        else:
+            try:
+                got = ref_authority_target(hosts[0], scheme)
+            except ValueError as e:
+                got = f"malformed ({e})"
+            if got != target:
+                b.fail(_ck("edit.host_header_points_to_destination", inp), inp, f"Host: {hosts[0]!r} designates {got!r}, request goes to {target!r}")
+    if not had_authority:
+        if r.data.authority:
+            b.fail(_ck("edit.nothing_created", inp), inp, f"authority appeared: {r.data.authority!r}")
+    else:
+        try:
+            got = ref_authority_target(r.data.authority, scheme)
+        except ValueError as e:
+            got = f"malformed ({e})"
+        if got != target:
+            b.fail(_ck("edit.authority_points_to_destination", inp), inp, f"authority {r.data.authority!r} designates {got!r}, request goes to {target!r}")
+
+
+def _host_class(host: str):
+    if ":" in host:
+        return "ipv6"
+    if not host.isascii() or "xn--" in host.lower():
+        return "idn"
+    return "plain"
+
+
+def _url_roundtrips(b, tier):
+    from mitmproxy.http import Request
+    ports = [("default", ""), ("explicit-default", None), ("other", ":8080"), ("other", ":65535"), ("zero", ":0")]
+    schemes = ["http", "https"] + (["HTTP"] if tier == "thorough" else [])
+    hosts = HOSTS if tier == "thorough" else [h for i, h in enumerate(HOSTS) if i not in (2, 4, 6, 9, 12)]
+    paths = PATHS if tier == "thorough" else PATHS[:10]
+    for scheme in schemes:
+        for hclass, host in hosts:
+            for pclass, port in ports:
+                for path in paths:
+                    p = port if port is not None else (":80" if scheme.lower() == "http" else ":443")
+                    u = f"{scheme}://{host}{p}{path}"
+                    inp = {"url": u, "host_class": hclass, "port_class": pclass}
+                    b.case(u, nontrivial=True)
+                    exp = ref_parse_url(u)
+                    try:
+                        r = Request.make("GET", u)
+                    except Exception as e:
+                        b.fail(_ck("url.assign_ok", inp), inp, f"{type(e).__name__}: {e}")
+                        continue
+                    got = (r.scheme, _alabel(r.host), r.port, r.path)
+                    if got != exp:
+                        b.fail(_ck("url.components_consistent", inp), inp, f"components {got!r}, URL means {exp!r}")
+                    u1 = r.url
+                    try:
+                        back = ref_parse_url(u1)
+                    except Exception as e:
+                        back = f"not a URL ({type(e).__name__}: {e})"
+                    if back != exp:
+                        b.fail(_ck("url.readback_equivalent", inp), inp, f"url reads back as {u1!r} = {back!r}, assigned URL means {exp!r}")
+                    before = (r.data.scheme, r.data.host, r.data.port, r.data.path, r.data.authority, r.headers.fields)
+                    try:
+                        r.url = u1
+                    except Exception as e:
+                        b.fail(_ck("url.reassign_idempotent", inp), inp, f"assigning the read-back URL {u1!r} raises {type(e).__name__}: {e}")
+                        continue
+                    after = (r.data.scheme, r.data.host, r.data.port, r.data.path, r.data.authority, r.headers.fields)
+                    if after != before or r.url != u1:
+                        b.fail(_ck("url.reassign_idempotent", inp), inp, f"re-assigning {u1!r} changed {before!r} to {after!r} (url {r.url!r})")
+
+
+def _edit_histories(b, tier):
+    import itertools
+    edits = [("host", "example.org"), ("host", "127.0.0.1"), ("host", "::1"), ("host", "2001:db8::1"), ("host", "bücher.de"), ("host", b"xn--bcher-kva.de"),
+             ("port", 80), ("port", 443), ("port", 8080),
+             ("url", "http://new.example/x?y=1"), ("url", "https://new.example:8443/"), ("url", "https://new.example/"), ("url", "http://[::1]:8080/p"), ("url", "http://xn--bcher-kva.de/")]
+    if tier == "quick":
+        edits = [e for i, e in enumerate(edits) if i not in (1, 7, 11)]
+    maxlen = 2 if tier == "quick" else 3
+    configs = list(itertools.product([b"HTTP/1.1", b"HTTP/2.0"], [None, b"old.example"], [b"", b"old.example"], [b"http", b"https"]))
+    for http_version, host_header, authority, scheme in configs:
+        for n in range(1, maxlen + 1):
+            for seq in itertools.product(edits, repeat=n):
+                r = _req(http_version, host_header, authority, scheme, port=80 if scheme == b"http" else 443)
+                other = [f for f in r.headers.fields if f[0].lower() != b"host"]
+                hist = []
+                for kind, val in seq:
+                    hist.append(f"{kind}={val!r}")
+                    try:
+                        setattr(r, kind, val)
+                    except Exception as e:
+                        cls = _host_class(val if isinstance(val, str) and kind != "port" else r.host) if kind != "port" else _host_class(r.host)
+                        b.fail(_ck("edit.total", {"config": [http_version.decode(), repr(host_header), repr(authority), scheme.decode()], "edits": hist, "host_class": cls}), {"config": [http_version.decode(), repr(host_header), repr(authority), scheme.decode()], "edits": hist, "host_class": cls}, f"{type(e).__name__}: {e}")
+                        break
+                    inp = {"config": [http_version.decode(), repr(host_header), repr(authority), scheme.decode()], "edits": list(hist), "host_class": _host_class(r.host)}
+                    b.case((http_version, host_header, authority, scheme, tuple(hist)), nontrivial=True)
+                    _check_destination(b, r, inp, host_header is not None, bool(authority), other)
+                    # the URL read back names the same destination
+                    try:
+                        back = ref_parse_url(r.url)
+                    except Exception as e:
+                        back = f"not a URL ({type(e).__name__}: {e})"
+                    if back != (r.scheme, _alabel(r.host), r.port, r.path):
+                        b.fail(_ck("edit.url_consistent", inp), inp, f"url {r.url!r} = {back!r} but host/port are {(r.host, r.port)!r}")
+
+
+def _helper_lemmas(b, tier):
+    """parse_authority(hostport(s, h, p)) == (h, p or None) on enumerated valid hosts/ports (the regex and idna parts are library behaviour)"""
+    from mitmproxy.net.http import url
+    for scheme in ("http", "https"):
+        for hclass, host in HOSTS:
+            h = host[1:-1] if host.startswith("[") else host
+            for port in (80, 443, 8080, 1, 65535):
+                inp = {"scheme": scheme, "host": h, "port": port, "host_class": hclass}
+                b.case(("lemma", scheme, h, port), nontrivial=True)
+                for conv in (lambda x: x, lambda x: x.encode("idna") if not x.isascii() else x.encode()):
+                    try:
+                        a = url.hostport(conv(scheme) if conv(scheme).__class__ is bytes else scheme, conv(h), port)
+                        got = url.parse_authority(a, check=True)
+                    except Exception as e:
+                        got = f"{type(e).__name__}: {e}"
+                    exp = (h if h.isascii() and "xn--" not in h else got[0] if isinstance(got, tuple) else None, None if port == url.default_port(scheme) else port)
+                    if not isinstance(got, tuple) or (_alabel(got[0]), got[1]) != (_alabel(h), exp[1]):
+                        b.fail(_ck("lemma.parse_authority_inverts_hostport", inp), inp, f"hostport -> {a!r} -> {got!r}")
+
+
+def bounded(tier, seed):
+    b = Bounded()
+    b.rule = ("(1) URLs scheme x host class {name, upper-case, underscore, trailing dot, IPv4, IPv6 literal, IDN A-label/U-label} x port {elided, explicit default, "
+              "8080, 65535, 0} x path/query/fragment forms with reserved characters: assign, compare components and the read-back URL with an independent RFC 3986 "
+              "reference reader, re-assign the read-back URL (idempotence). (2) all sequences of <= 2 (thorough 3) host/port/url edits on HTTP/1.1 and HTTP/2 requests "
+              "with/without Host header and authority: Host/authority must designate (host, port) per the reference reader, nothing created, other headers untouched. "
+              "(3) parse_authority(hostport(s,h,p)) = (h, p-or-None). distinct = URL resp. (configuration, edit history)")
+    b.bound = "13 hosts x 5 port forms x 13 paths x 3 schemes; edit histories <= 3 over 14 edits x 16 request configurations"
+    b.exhaustive = False
+    _url_roundtrips(b, tier)
+    _edit_histories(b, tier)
+    _helper_lemmas(b, tier)
+    return b
+
+
+ASSUMPTIONS = [
+    "valid URL = absolute http/https URL without userinfo (the request model has no userinfo; RFC 9110 §4.2.4 deprecates it); IDN hosts are given as A-labels "
+    "(xn--) or U-labels; equivalence of URLs = equal (lower-cased scheme, host in A-label lower-case form, effective port, path+query+fragment with '' read as '/')",
+    "T1: url.parse (urllib.parse + idna) is summarised as an arbitrary (scheme, non-empty pure-ASCII non-ACE host, port, path) result; its real behaviour is only checked in T2",
+    "T1: ports that are formatted into a Host/authority string inside Request-level scenarios are case-split over {default, non-default} per scheme "
+    "(int->str is opaque to the solvers); url.hostport / url.unparse / url getter themselves are proved for every integer port and every host string",
+    "T1: idna codec uninterpreted with two facts about CPython's fast paths (pure-ASCII names encode to themselves when encodable; pure-ASCII bytes without 'xn--' "
+    "decode to themselves); utf-8/surrogateescape is the identity on ASCII; for non-ASCII hosts the authority obligation is only checked in T2",
+    "T1: pre-existing headers are one of 7 configurations (none / Host in three spellings / Host between two arbitrary fields / two Host fields / one arbitrary field); "
+    "names and values of the other fields and all old values are symbolic",
+    "parse_authority's regular expression and net.check.is_valid_host (regex + ipaddress + idna) are library-engine behaviour: only in T2 (lemma parse_authority∘hostport)",
+]
+EXPLANATION = ("T1 proves the mechanisms: default_port/is_valid_port/hostport/unparse for all inputs (with the IPv6 bracket clause recorded as KF-C33-1), the Request url getter, "
+               "and for the host/port/url setters that every component is stored and that an existing Host header (in place, spelling kept, duplicates dropped) and a non-empty "
+               "authority are rewritten to the RFC 3986 authority of the new (scheme, host, port) while nothing is created and other headers are untouched. The URL round trip "
+               "itself (parse after unparse, idempotent re-assignment, IDN/IPv6 hosts) depends on urllib.parse and the idna codec and is checked by the bounded T2 enumeration only.")
